@@ -336,6 +336,18 @@ template <class F, class T> static void statics ()
                         ",\"eq\":" + std::to_string ((int) (a == b)) + ",\"ne\":" + std::to_string ((int) (a != b)) + "}\n";
         fputs (s.c_str (), o);
     }
+    // an object compared with ITSELF (same address): still the slot-wise comparison - with a NaN in any slot, == is false and != true
+    if (!std::numeric_limits<T>::is_integer)
+        for (int slot = -1; slot < N; ++slot)
+        {
+            for (int i = 0; i < N; ++i) w[i] = v[i];
+            if (slot >= 0) w[slot] = std::numeric_limits<T>::quiet_NaN ();
+            A b = F::make (w);
+            const A& alias = b;
+            std::string s = std::string ("{\"e\":\"aggeq\",\"fam\":\"") + F::name () + "\",\"T\":\"" + E<T>::tag () + "\",\"n\":" + std::to_string (N) + ",\"self\":1,\"a\":" + jl (w, N) + ",\"b\":" + jl (w, N) +
+                            ",\"eq\":" + std::to_string ((int) (b == alias)) + ",\"ne\":" + std::to_string ((int) (b != alias)) + "}\n";
+            fputs (s.c_str (), o);
+        }
 }
 template <class F, class T> static void tolerant ()
 {
